@@ -132,6 +132,21 @@ pub fn source_subjects() -> Vec<Subject> {
                 b.repeat(rep_of(repeat));
                 (bx(b), o)
             }));
+            // SigMF archive (one tar file; the data sits at an offset).
+            if len > 0 {
+                let apath = tmp_path(&format!("arch-{len}.sigmf"));
+                let bytes = serialize(&data);
+                std::fs::write(
+                    &apath,
+                    crate::crashx::make_tar(&[("rec.sigmf-meta", SIGMF_META.as_bytes(), b'0'), ("rec.sigmf-data", &bytes, b'0')]),
+                )
+                .unwrap();
+                let a2 = apath.clone();
+                v.push(src_subject("SigMFSource", format!("archive {variant}"), &data, repeat, None, move || {
+                    let (b, o) = SigMFSourceBuilder::<B>::new(a2.clone()).repeat(rep_of(repeat)).build().unwrap();
+                    (bx(b), o)
+                }));
+            }
             // SigMF recording (two files).
             let base = tmp_path(&format!("rec-{len}.sigmf"));
             std::fs::write(format!("{}-meta", base.display()), SIGMF_META).unwrap();
